@@ -252,7 +252,26 @@ def run_c02(ctx):
                               jobs(cname, shards, n, ALL_FEATURES, False, True), what='DocCheck %s, <= %d actions' % (cname, n))
         ctx.add_merged(m)
         ctx.log('%s: %d documents written, %s' % (cname, m['n'], {k: v for k, v in m['counters'].items() if not k.startswith('vsig')}))
+    # deep, narrow derivations: few construct kinds, more actions (nesting of delimited arguments inside each other,
+    # bracket text protected by a brace group inside an optional argument, math inside arguments inside environments)
+    nd = 7 if quick else 9
+    dj = []
+    for cname, sh, feats in DEEP:
+        dj += jobs(cname, [sh], nd, feats, False, True)
+    m = common.run_shards(ctx, ('harness.docwriter', 'DocConsumer'), dj, what='DocCheck deep narrow derivations, <= %d actions' % nd)
+    ctx.add_merged(m)
+    ctx.log('deep narrow (%d construct sets, <= %d actions): %d documents written, %s' % (
+        len(DEEP), nd, m['n'], {k: v for k, v in m['counters'].items() if not k.startswith('vsig')}))
     ctx.exhaustive = True
+
+
+DEEP = [
+    ('k', dict(macros=['o', 'm'], envs=[], specials=[], argless=[]), ['bracket', 'group']),
+    ('k', dict(macros=['d', 'o'], envs=[], specials=[], argless=[]), ['bracket', 'math']),
+    ('k', dict(macros=['o'], envs=['p'], specials=[], argless=[]), ['bracket', 'group']),
+    ('default', dict(macros=['section', 'textbf'], envs=[], specials=[], argless=[]), ['bracket', 'group']),
+    ('default', dict(macros=['item', 'sqrt'], envs=['itemize'], specials=[], argless=[]), ['bracket', 'math']),
+]
 
 
 def run_fault_injection(ctx):
